@@ -37,10 +37,12 @@ def known_enum():
     return ({int(c) for c in SmppCommand}, {int(s) for s in SmppCommandStatus}, {int(k) for k in COMMAND_RESPONSE_MAP})
 
 
-def batch(pdus, default, tags, presubmit=None):
+def batch(pdus, default, tags, presubmit=None, age=0.0, age_at=None):
     """feed the PDUs one at a time to a bound session; returns per PDU the observation.
     presubmit: texts of messages the application sends first (the scripted SMSC accepts every PDU of them under the
-    ids id1, id2, ...), so that the inbound PDUs meet a correlator that holds state"""
+    ids id1, id2, ...), so that the inbound PDUs meet a correlator that holds state;
+    age, age_at: before the PDU with index age_at is fed, that much (virtual) time passes - days, for the entries of the
+    delivery stores to outlive their time-to-live"""
     s = Sim(enquire_link_interval=1e6, socket_timeout=5.0, default_encoding=default)
     obs = []
     try:
@@ -54,7 +56,9 @@ def batch(pdus, default, tags, presubmit=None):
                 for i, text in enumerate(presubmit):
                     s.enqueue(SubmitSm(short_message=text, auto_message_payload=False, log_id='P%d' % i, encoding='gsm0338'))
                 await asyncio.sleep(1.0)
-            for p in pdus:
+            for ip, p in enumerate(pdus):
+                if age and ip == (age_at or 0):
+                    await asyncio.sleep(age)
                 # wait until bound
                 for _ in range(400):
                     if s.esme.session_state.name.startswith('BOUND') and s.esme._bound.is_set():
@@ -89,7 +93,7 @@ def batch(pdus, default, tags, presubmit=None):
                     break            # start() is gone: the PDUs not yet fed are not judged
             s.stop()
         s.loop.create_task(env())
-        res = s.run(10 ** 5)
+        res = s.run(10 ** 5 + age)
         started_ended_early = [e for e in s.events if e[1] == 'start-ended']
         stop_called = [e for e in s.events if e[1] == 'stop-called']
         early = bool(started_ended_early and (not stop_called or started_ended_early[0][0] < stop_called[0][0]))
@@ -245,7 +249,7 @@ def generate(rng, tier):
                 yield Case(line, real, sig, fail, inp)
     # inbound PDUs meeting a correlator that holds state: segmented and plain messages were submitted and accepted
     # (ids id1, id2, ...), then receipts arrive for their segments in any order, twice, for unknown ids, between other PDUs
-    for _ in range(12 if thorough else 4):
+    for bi in range(12 if thorough else 4):
         default = rng.choice(('gsm0338', 'gsm0338', 'ucs2'))
         nsegs = [rng.choice((1, 2, 2, 3)) for _ in range(rng.randrange(1, 4))]
         texts = ['hello' if n == 1 else 'x' * (254 * (n - 1) + 20) for n in nsegs]
@@ -277,7 +281,15 @@ def generate(rng, tier):
             items.append((pdu(5, 0, 0x9000 + k, body), 'receipt-stateful'))
             if rng.random() < 0.3:
                 items.extend(gen_pdus(rng, 1))
-        obs, early, exc = batch([p for p, _ in items], default, [t for _, t in items], presubmit=texts)
+        # in some batches days pass in the middle: what the delivery stores hold (ids of accepted segments, the first part of
+        # an inbound concatenated message) outlives its time-to-live and is swept by the next PDU that touches the correlator
+        age = 3 * 86400.0 + 5.0 if bi % 2 else 0.0
+        age_at = rng.randrange(len(items))
+        if age:
+            first_part = b'\x00' * 7 + b'\x40' + b'\x00' * 6 + b'\x00\x00' + b'\x08' + b'\x05\x00\x03\x4d\x02\x01ab'
+            items.insert(age_at, (pdu(5, 0, 0x8fff, first_part), 'first-part-before-the-pause'))
+            age_at += 1
+        obs, early, exc = batch([p for p, _ in items], default, [t for _, t in items], presubmit=texts, age=age, age_at=age_at)
         for (p, tag), o in zip(items, obs):
             fail = predicate(p, o, cmds, stats, reqs)
             real = show_action(o, p)
@@ -285,7 +297,7 @@ def generate(rng, tier):
             ln, cmd, st, seq = struct.unpack('!IIII', p[:16])
             sig = ('rx', '%08x' % cmd if cmd in cmds else 'unknown-cmd', tag, real.split(' ')[0] + (real.split(' ')[1][-3:] if ' ' in real else ''))
             inp = {'op': 'rx-stateful', 'default': default, 'presubmit': texts, 'pdus': [q.hex() for q, _ in items],
-                   'index': items.index((p, tag))}
+                   'index': items.index((p, tag)), 'age': age, 'age_at': age_at}
             if _opaque(p):
                 yield Case('# opaque ' + line, '# opaque ' + line, sig, fail, inp)
             else:
@@ -448,7 +460,8 @@ def replay(inp):
         return chunked_stream_case(random.Random(0), inp['default'], fixed=inp)
     if inp.get('op') == 'rx-stateful':
         pdus = [bytes.fromhex(h) for h in inp['pdus']]
-        obs, early, exc = batch(pdus, inp['default'], ['replay'] * len(pdus), presubmit=inp['presubmit'])
+        obs, early, exc = batch(pdus, inp['default'], ['replay'] * len(pdus), presubmit=inp['presubmit'],
+                                age=inp.get('age', 0.0), age_at=inp.get('age_at'))
         i = min(inp['index'], len(obs) - 1)
         fail = predicate(pdus[i], obs[i], cmds, stats, reqs)
         if early and fail is None:
